@@ -38,6 +38,6 @@ def HT(name, path, token):
 def dec(field, sort):
     return ufn("row_" + field, z3.StringSort(), sort)
 
-StateBase = TRef("StateBase", fields={}, qualname="dvc_data.hashfile.state:StateBase")
+StateBase = TRef.registry.get("StateBase") or TRef("StateBase", fields={}, qualname="dvc_data.hashfile.state:StateBase")
 StateNoop = TRef("StateNoop", fields={}, qualname="dvc_data.hashfile.state:StateNoop", bases=("StateBase",))
 State.bases = ("StateBase",)
